@@ -34,6 +34,14 @@ def datasetOfJson (j : Json) (dk mk : String) : Except String Dataset := do
     if d.length != m.length then throw "column counts differ"
   return { disp, mask }
 
+def variantOfJson (j : Json) : Except String Variant :=
+  match j.getObjVal? "variant" with
+  | .ok (Json.str "asis") => .ok .asIs
+  | .ok (Json.str "or") => .ok .orFix
+  | .ok (Json.str "rule") => .ok .ruleFix
+  | .ok v => .error s!"unknown variant {v.compress}"
+  | .error _ => .ok .asIs
+
 def outToJson (o : Out) : Json :=
   mkObj [("disp", gridToJson valToJson o.disp), ("mask", gridToJson natToJson o.mask),
          ("conf", gridToJson confToJson o.conf)]
@@ -43,8 +51,9 @@ def checkOp (j : Json) : Except String Json := do
   let P ← paramsOfJson j
   let A ← datasetOfJson j "disp_a" "mask_a"
   let B ← datasetOfJson j "disp_b" "mask_b"
+  let V ← variantOfJson j
   if A.disp.length != B.disp.length then throw "the two maps have different row counts"
-  return outToJson (check P A B)
+  return outToJson (check V P A B)
 
 /-- `validation_run`: left against right, then right against the checked left -/
 def runOp (j : Json) : Except String Json := do
@@ -52,7 +61,8 @@ def runOp (j : Json) : Except String Json := do
   let PR ← field j "right" >>= paramsOfJson
   let L ← datasetOfJson (← field j "left") "disp" "mask"
   let R ← datasetOfJson (← field j "right") "disp" "mask"
-  let (l, r) := validationRun PL PR L R
+  let V ← variantOfJson j
+  let (l, r) := validationRun V PL PR L R
   return mkObj [("left", outToJson l), ("right", outToJson r)]
 
 /-- the specification on given outputs of `disparity_checking(A, B)` -/
